@@ -62,6 +62,12 @@ class App:
                 raise ValueError("first attempt failed")
             except ValueError:
                 start_response(status, hdrs, sys.exc_info())
+        elif route == "swallow":
+            # an application that catches whatever start_response raises and carries on: a refused call must leave nothing behind
+            try:
+                start_response(status, hdrs)
+            except Exception:
+                pass
         else:
             start_response(status, hdrs)
         if route == "mutate":
@@ -136,6 +142,15 @@ def check(case, o):
     emitted = app_status_line is not None and sl == app_status_line and not (is500 and not str(status).startswith("500"))
     if sl == b"HTTP/1.1 500 Internal Server Error" and status != "500 Internal Server Error":
         emitted = False
+    if must_refuse and case.get("route") == "swallow":
+        # the call was refused and the application went on regardless: whatever is sent, it carries none of the refused fields
+        for ln in lines[1:]:
+            name = ln.split(b":", 1)[0].lower()
+            if name not in SERVER_FIELDS + (b"content-type",):
+                fail("refused-field-emitted", "start_response refused the call, yet the head carries %r" % ln[:80])
+        if isinstance(status, str) and offending(status) and any(p_ and p_.encode("latin-1", "replace") in head for p_ in status.replace("\r", "\n").split("\n")[1:] if len(p_) >= 6 and p_ not in "HTTP/1.1 200 OK"):
+            fail("refused-status-emitted", "part of the refused status string is in the head: %r" % head[:120])
+        return fails
     if must_refuse and emitted:
         fail("emitted-must-refuse", "status/headers that must be refused were emitted: status line %r" % sl[:80])
     if not emitted:
@@ -237,7 +252,7 @@ def run_case(case):
 # ---------------------------------------------------------------- generation
 BAD = ["\r", "\n", "\r\n", "\x00", "\x0b", "\x85", " ", "Ā", " ", ":", "\n ", "\r\nInjected: yes", "\nSet-Cookie: x=1",
        "\r\n\r\nHTTP/1.1 200 OK\r\nX-Split: yes"]
-ROUTES = ["initial", "recall", "fw", "mutate"]
+ROUTES = ["initial", "recall", "fw", "mutate", "swallow"]
 
 
 def positional_cases():
